@@ -4,6 +4,8 @@ package main
 //
 //   registry <op> ...
 //       a:<m|s>:<namehex>:<revs>     Parse a generated (sub)module text; revs = "-" or rev,rev,... (hex, "_" = "")
+//       t:<hdr>+<hdr>+...            Parse ONE text holding several (sub)modules; hdr = <m|s>;<namehex>;<revs>;
+//                                    the id of the j-th module of op i is 1000+16*i+j; one verdict for the text
 //       f:<m|s>:<namehex>:<n|r<hex>> FindModule of an Import (m) / Include (s), n = no revision-date
 //     -> v=<0|1 per add> f=<id|- per find> M=<keyhex>:<id>,... S=<keyhex>:<id>,...
 //     the id of a text is the index of its op; it is written into the description statement.
@@ -77,6 +79,28 @@ func c13Registry(toks []string) string {
 	ms := yang.NewModules()
 	var vs, fs []string
 	for i, op := range toks {
+		if strings.HasPrefix(op, "t:") {
+			var texts []string
+			for j, h := range strings.Split(op[2:], "+") {
+				q := strings.Split(h, ";")
+				if len(q) != 3 {
+					return "bad-case"
+				}
+				var revs []string
+				if q[2] != "-" {
+					for _, r := range strings.Split(q[2], ",") {
+						revs = append(revs, c13Rev(r))
+					}
+				}
+				texts = append(texts, c13Text(q[0], string(unhex(q[1])), revs, 1000+16*i+j))
+			}
+			if err := ms.Parse(strings.Join(texts, "\n"), fmt.Sprintf("t%d", i)); err != nil {
+				vs = append(vs, "0")
+			} else {
+				vs = append(vs, "1")
+			}
+			continue
+		}
 		p := strings.Split(op, ":")
 		if len(p) != 4 {
 			return "bad-case"
